@@ -229,38 +229,24 @@ def _registry_lookup(body):
 
 
 def _bool_switch(body, call_block):
-    """for a call returning bool followed by switchInt: (false_target, true_target)"""
-    t = body.term(call_block)
-    cur = t.get("target")
-    dst = t["dst"]["l"]
-    for _ in range(4):
-        if cur is None:
-            return None
-        tt = body.term(cur)
-        if tt["k"] == "switch":
-            pl = op_place(tt["discr"])
-            # allow a `Not` in between
-            negated = False
-            if pl and pl["l"] != dst:
-                for st in body.stmts(cur):
-                    if st["k"] == "assign" and st["dst"]["l"] == pl["l"] and st["rv"]["k"] == "unop" and st["rv"]["op"] == "Not":
-                        a = op_place(st["rv"]["a"])
-                        if a and a["l"] == dst:
-                            negated = True
-                if not negated:
-                    return None
-            f = tr = None
-            for v, tg in tt["targets"]:
-                if v == 0:
-                    f = tg
-            tr = tt["otherwise"]
-            if negated:
-                f, tr = tr, f
-            return f, tr
-        if tt["k"] == "goto":
-            cur = tt["target"]
-        else:
-            return None
+    """for a call returning bool whose value is switched on (directly, through a named local, or negated):
+    (false_target, true_target) in terms of the call's result"""
+    want = body.term(call_block)
+    for blk in range(body.n):
+        tt = body.term(blk)
+        if tt["k"] != "switch" or body.is_cleanup(blk):
+            continue
+        pl = op_place(tt["discr"])
+        if pl is None or pl["p"]:
+            continue
+        call, pos = M.flag_polarity(body, pl["l"])
+        if call is not want:
+            continue
+        f = next((tg for v, tg in tt["targets"] if v == 0), None)
+        tr = tt["otherwise"]
+        if not pos:
+            f, tr = tr, f
+        return f, tr
     return None
 
 
@@ -412,7 +398,7 @@ def error_discipline_rule(crate, prop):
             if fn_matches(t, *PROPAGATORS):
                 continue
             f, l = _loc(body, b)
-            verdict, how = _result_fate(body, t["dst"]["l"], set())
+            verdict, how = _result_fate(body, t["dst"]["l"], set(), walker_roles(crate)[2] if "TypeVisitor" in body.path else None)
             r.inst(fn=body.path, callee=_short(t), where="%s:%s" % (f, l), fate=how)
             if not verdict:
                 r.fail(prop, "error-dropped %s -> %s (%s)" % (body.path, _short(t), how),
@@ -421,7 +407,7 @@ def error_discipline_rule(crate, prop):
     return r
 
 
-def _result_fate(body, local, seen):
+def _result_fate(body, local, seen, slot=None):
     if local in seen:
         return True, "cycle"
     seen.add(local)
@@ -445,11 +431,11 @@ def _result_fate(body, local, seen):
                     for st in body.stmts(bb):
                         if st["k"] == "assign" and st["rv"]["k"] == "use":
                             pl = op_place(st["rv"]["op"])
-                            if pl and pl["l"] == d and any(p == ".error" for p in st["dst"]["p"]):
+                            if pl and pl["l"] == d and any(p == (slot or ".error") or (slot is None and p.startswith(".")) for p in st["dst"]["p"]):
                                 ok = True
                 fates.append((ok, ".err() stored in visitor.error" if ok else ".err() result not stored"))
             elif fn_matches(u, *PROPAGATORS):
-                fates.append(_result_fate(body, u["dst"]["l"], seen))
+                fates.append(_result_fate(body, u["dst"]["l"], seen, slot))
             else:
                 # passed to some other function: treat as handled by callee only if it is a closure/adaptor
                 fates.append((True, "passed to " + _short(u)))
@@ -460,7 +446,7 @@ def _result_fate(body, local, seen):
             elif dst["l"] == 0:
                 fates.append((True, "returned"))
             elif not dst["p"]:
-                fates.append(_result_fate(body, dst["l"], seen))
+                fates.append(_result_fate(body, dst["l"], seen, slot))
             else:
                 fates.append((True, "stored"))
         else:
@@ -626,13 +612,39 @@ def env_rule(crate, prop, reader="export::default_out_dir", var="TS_RS_EXPORT_DI
 
 # ------------------------------------------------------------------ C06.R4 + C11.R2
 
+def walker_roles(crate):
+    """(recursive exporter, exporting visitor's visit body, name of the visitor's error slot).  Found by what they do, not
+    by what they are called: the exporter is the function of module recursive_export that calls export_into; the visitor
+    is the TypeVisitor implemented in that module; its error slot is the field it tests with is_some()/is_none()."""
+    rec = [b for b in crate.bodies if b.kind in ("Fn", "AssocFn") and b.path.startswith("export::recursive_export::")
+           and any(fn_matches(t, r"^export::export_into$") for blk, t in b.calls() if not b.is_cleanup(blk))]
+    vis = [b for b in crate.bodies if b.raw.get("assoc_name") == "visit" and (b.raw.get("impl_trait") or "").split("::")[-1] == "TypeVisitor"
+           and "recursive_export::" in (b.raw.get("impl_self") or b.path)]
+    er = rec[0] if len(rec) == 1 else None
+    v = vis[0] if len(vis) == 1 else None
+    slot = None
+    if v is not None:
+        for blk, t in v.calls():
+            if fn_matches(t, r"option::Option::<T>::(is_some|is_none)$") and t["args"]:
+                l = op_local(t["args"][0])
+                for b2, i, d in (M.def_sites(v, l) if l is not None else []):
+                    if i != "term" and d["rv"]["k"] == "ref":
+                        fs = [x for x in d["rv"]["pl"]["p"] if x.startswith(".")]
+                        if fs and "ExportError" in (t.get("arg_tys") or [""])[0]:
+                            slot = fs[-1]
+    return er, v, slot
+
+
+def _vis_type(v):
+    return re.sub(r"<.*$", "", (v.raw.get("impl_self") or "")) if v is not None else "?"
+
+
 def walk_rule(crate, prop):
     r = Result("C11.R2", "recursive export: seen-guard dominates the walk; every non-error, non-seen return of export_recursive passes the dependency visit; the visitor recurses through export_recursive, skips non-exportable types, short-circuits after the first error, stores the error, and export_recursive returns it")
-    er = crate.body("export::recursive_export::export_recursive")
-    vis = None
-    for b in crate.bodies:
-        if b.raw.get("assoc_name") == "visit" and "recursive_export::Visit" in (b.raw.get("impl_self") or ""):
-            vis = b
+    er, vis, slot = walker_roles(crate)
+    slot = slot or ".error"
+    vty = _vis_type(vis)
+    rec_rx = re.escape(er.path) + "$" if er is not None else r"recursive_export::export_recursive$"
     eai = crate.body("export::recursive_export::export_all_into")
     for nm, bd in (("export_recursive", er), ("Visit::visit", vis), ("export_all_into", eai)):
         if bd is None:
@@ -642,7 +654,7 @@ def walk_rule(crate, prop):
     # edges
     def has_call(body, rx):
         return [(b, t) for b, t in body.calls() if fn_matches(t, rx) and not body.is_cleanup(b)]
-    e1 = has_call(eai, r"recursive_export::export_recursive$")
+    e1 = has_call(eai, rec_rx)
     r.inst(edge="export_all_into -> export_recursive", present=bool(e1))
     if not e1:
         r.fail(prop, "edge-missing export_all_into -> export_recursive", "export_all_into does not start the recursive walk", eai.file(), eai.line())
@@ -655,7 +667,7 @@ def walk_rule(crate, prop):
     if not c_vis:
         r.fail(prop, "edge-missing export_recursive -> visit_dependencies", "dependencies are not walked", er.file(), er.line())
     for b, t in c_vis:
-        if "recursive_export::Visit" not in " ".join(t["fn"].get("args", [])):
+        if vty.split("::")[-1] not in " ".join(t["fn"].get("args", [])):
             r.fail(prop, "visitor-type export_recursive", "visit_dependencies is not driven with the exporting visitor", *_loc(er, b))
     at_t = [1 for b, t in c_vis if (t["fn"].get("args") or [None])[0] == "T"]
     for b, t in c_into + c_vis:
@@ -680,7 +692,9 @@ def walk_rule(crate, prop):
         if not ok:
             r.fail(prop, "walk-not-guarded export_recursive -> %s" % _short(t), "call is reachable without passing the `seen.insert(..) == true` edge", *_loc(er, b))
     # every path entry -> return passes: already-seen edge, a `?` break edge, or the visit call
-    through = {already_t} | {e["brk"] for e in try_edges(er) if e["brk"] is not None} | {b for b, _ in c_vis}
+    slot_writes = {bb for bb in range(er.n) if not er.is_cleanup(bb) for st in er.stmts(bb)
+                   if st["k"] == "assign" and slot in st["dst"]["p"] and vty.split("::")[-1] in er.local_ty(st["dst"]["l"])}
+    through = {already_t} | {e["brk"] for e in try_edges(er) if e["brk"] is not None} | {b for b, _ in c_vis} | M.error_blocks(er) | slot_writes
     ok = er.all_paths_pass(0, through, er.returns())
     r.inst(fn=er.path, check="all non-error returns pass visit_dependencies", ok=ok)
     if not ok:
@@ -694,25 +708,48 @@ def walk_rule(crate, prop):
             for st in er.stmts(bb):
                 if st["k"] == "assign" and st["rv"]["k"] in ("discr", "use", "ref"):
                     pl = st["rv"].get("pl") or op_place(st["rv"].get("op", {"k": ""})) if st["rv"]["k"] != "use" else op_place(st["rv"]["op"])
-                    if pl and ".error" in pl["p"] and "Visit" in er.local_ty(pl["l"]):
+                    if pl and slot in pl["p"] and vty.split("::")[-1] in er.local_ty(pl["l"]):
                         readers.add(bb)
         ok = bool(readers) and er.all_paths_pass(start, readers, er.returns())
+        if not ok and not readers:
+            # the exporter is its own visitor (`visit_dependencies(self)`): the slot outlives the call and is looked at by
+            # whoever created the exporter - every path of export_all_into from the walk to a return must read it
+            rd2 = set()
+            for bb in range(eai.n):
+                for st in eai.stmts(bb):
+                    if st["k"] == "assign" and st["rv"]["k"] in ("discr", "use", "ref"):
+                        pl = st["rv"].get("pl") if st["rv"]["k"] != "use" else op_place(st["rv"]["op"])
+                        if pl and slot in pl["p"] and vty.split("::")[-1] in eai.local_ty(pl["l"]):
+                            rd2.add(bb)
+            ok = bool(rd2) and all(eai.all_paths_pass(t1["target"], rd2, eai.returns()) for _, t1 in e1 if t1.get("target") is not None)
         r.inst(fn=er.path, check="visitor.error read on every path from the visit to a return", ok=ok)
         if not ok:
             r.fail(prop, "visitor-error-ignored export_recursive", "a path from visit_dependencies to return does not look at visitor.error: a dependency's export error is swallowed",
                    *_loc(er, b))
     # Visit::visit
-    rec = has_call(vis, r"recursive_export::export_recursive$")
+    rec = has_call(vis, rec_rx)
     direct = has_call(vis, r"^export::export_(into|to)$")
     r.inst(edge="Visit::visit -> export_recursive", present=bool(rec))
     if not rec:
         r.fail(prop, "edge-missing Visit::visit -> export_recursive", "the visitor does not recurse: only direct dependencies would be exported", vis.file(), vis.line())
     if direct:
         r.fail(prop, "visitor-exports-directly Visit::visit", "visitor calls export_into/export_to directly (transitive dependencies lost)", *_loc(vis, direct[0][0]))
-    is_some = [(b, t) for b, t in vis.calls() if fn_matches(t, r"option::Option::<T>::is_some$") and _arg_mentions_field(vis, t, ".error")]
+    is_some = [(b, t) for b, t in vis.calls() if fn_matches(t, r"option::Option::<T>::is_some$") and _arg_mentions_field(vis, t, slot)]
     is_none = [(b, t) for b, t in vis.calls() if fn_matches(t, r"option::Option::<T>::is_none$") and
                any(o["kind"] == "call" and fn_matches(o["t"], r"TS::output_path$") for o in origins(vis, op_local(t["args"][0])))]
+    has_path = [(b, t) for b, t in vis.calls() if fn_matches(t, r"option::Option::<T>::is_some$") and
+                any(o["kind"] == "call" and fn_matches(o["t"], r"TS::output_path$") for o in origins(vis, op_local(t["args"][0])))]
+    if not is_none and has_path:
+        # `if output_path().is_some() { recurse }`: the recursion must sit behind the true edge
+        sw3 = _bool_switch(vis, has_path[0][0])
+        for b, t in rec:
+            ok = bool(sw3) and sw3[1] is not None and vis.dominates(sw3[1], b)
+            r.inst(fn=vis.path, guard="output_path().is_some()", dominates_recursion=ok)
+            if not ok:
+                r.fail(prop, "visitor-guard-bypassed output_path().is_some()", "recursive export reachable for a type without an output path", *_loc(vis, b))
     for nm, lst, want_false in (("error.is_some()", is_some, True), ("output_path().is_none()", is_none, True)):
+        if nm.startswith("output_path") and not lst and has_path:
+            continue
         if not lst:
             r.fail(prop, "visitor-guard-missing %s" % nm, "Visit::visit does not test %s before recursing" % nm, vis.file(), vis.line())
             continue
@@ -728,7 +765,10 @@ def walk_rule(crate, prop):
                 r.fail(prop, "visitor-guard-bypassed %s" % nm, "recursive export reachable although %s" % nm, *_loc(vis, b))
     # result stored
     for b, t in rec:
-        verdict, how = _result_fate(vis, t["dst"]["l"], set())
+        if (t.get("dst_ty") or "") == "()":
+            r.inst(fn=vis.path, callee=_short(t), fate="returns nothing: errors are written to the slot where they occur (checked above)")
+            continue
+        verdict, how = _result_fate(vis, t["dst"]["l"], set(), slot)
         r.inst(fn=vis.path, callee=_short(t), fate=how)
         if not verdict or "visitor.error" not in how:
             r.fail(prop, "visitor-error-not-stored Visit::visit", "result of the recursive export is %s" % how, *_loc(vis, b))
@@ -832,31 +872,88 @@ def path_agreement_rule(crate, prop):
     return r
 
 
-def normaliser_rule(syn, prop, rule="C17.R7"):
+def normaliser_rule(syn, prop, rule="C17.R7", crate=None):
     """`..` may cancel a directory name; it may not cancel the root.  `/a/../../x` has no meaning below the root and C17 asks
     for an error; popping the RootDir component instead leaves the relative path `x`, which export_to re-anchors at the cwd."""
-    from vlib import synlib as S
-    r = Result(rule, "in path::absolute the `..` arm removes the last component only when that component is a directory name (Component::Normal); at the root or a prefix it is an error, so a path that climbs above the root by any number of levels is rejected")
-    fn = syn.fn("export::path::absolute", "export/path.rs") or syn.fn("absolute", "export/path.rs")
-    if fn is None:
+    r = Result(rule, "in path::absolute (helpers and closures included) every removal of a component from the cleaned stack is tied to a test that the removed component is a directory name (Component::Normal): either the test on `last()` dominates the removal, or the removed value itself is tested and every other outcome ends in an error; at the root or a prefix `..` is an error, so a path that climbs above the root by any number of levels is rejected")
+    if crate is None or crate.body("export::path::absolute") is None:
         r.fail(prop, "anchor-missing path::absolute", "not found")
         return r
-    pops = [e for e in S.events(fn, "mcall") if S.squash(e.get("method", "")) in ("pop", "truncate", "remove")]
+    NORMAL = 4   # std::path::Component: Prefix, RootDir, CurDir, ParentDir, Normal
+    group = crate.owned_by("export::path::absolute")
     n = 0
-    for e in pops:
-        in_parent = any(c["k"] == "match" and "ParentDir" in S.squash(c["pat"]) for c in e["ctx"])
-        if not in_parent:
+    for b in crate.bodies:
+        if b.path not in group:
             continue
-        n += 1
-        guarded = any((c["k"] == "match" and "Normal" in S.squash(c["pat"])) or (c["k"] == "if" and "Normal" in S.squash(c.get("cond", "")) and c.get("branch", "then") == "then")
-                      for c in e["ctx"])
-        r.inst(fn=fn["qual"], where="%s:%s" % (fn["file"], e["line"]), pop_under_parent_dir=True, only_for_directory_names=guarded)
-        if not guarded:
-            r.fail(prop, "parent-dir-pops-root export::path::absolute",
-                   "`..` pops whatever component is last, the root included: with an output directory two levels deep, `#[ts(export_to = \"../../../x.ts\")]` normalises to the relative path `x.ts`; export_all_to returns Ok and the file is written under the working directory",
-                   fn["file"], e["line"])
+        pops = [(blk, t) for blk, t in b.calls() if not b.is_cleanup(blk) and fn_matches(t, r"vec::Vec::<T, A>::(pop|truncate|remove|swap_remove)$")
+                and "Component" in (t.get("arg_tys") or [""])[0]]
+        if not pops:
+            continue
+        tests = []
+        for blk in range(b.n):
+            sw = b.term(blk)
+            if sw["k"] != "switch" or b.is_cleanup(blk) or op_local(sw["discr"]) is None:
+                continue
+            for bb, i, d in M.def_sites(b, op_local(sw["discr"])):
+                if i == "term" or d["rv"]["k"] != "discr":
+                    continue
+                pl = d["rv"]["pl"]
+                if "Component" not in b.local_ty(pl["l"]):
+                    continue
+                normal_t = next((tg for v, tg in sw["targets"] if v == NORMAL), None)
+                if normal_t is None:
+                    continue
+                vis = set()
+                org = origins(b, pl["l"], visited=vis)
+                src = [o for o in org if o["kind"] == "call" and fn_matches(o["t"], r"::last$", r"::last_mut$", r"vec::Vec::<T, A>::pop$")]
+                tests.append((blk, normal_t, src))
+        errs = M.error_blocks(b)
+
+        def flag_edges(normal_t):
+            """`matches!(last(), Some(Normal(_)))`: blocks entered only when a bool that is set to true nowhere but behind the
+            Normal edge is true"""
+            out = []
+            for wb in range(b.n):
+                sw = b.term(wb)
+                if sw["k"] != "switch" or b.is_cleanup(wb) or op_local(sw["discr"]) is None:
+                    continue
+                cur, pos = op_local(sw["discr"]), True
+                ds = [d for d in M.def_sites(b, cur) if not b.is_cleanup(d[0])]
+                if len(ds) == 1 and ds[0][1] != "term" and ds[0][2]["rv"]["k"] == "unop" and ds[0][2]["rv"]["op"] == "Not" and op_local(ds[0][2]["rv"]["a"]) is not None:
+                    cur, pos = op_local(ds[0][2]["rv"]["a"]), False
+                    ds = [d for d in M.def_sites(b, cur) if not b.is_cleanup(d[0])]
+                if b.local_ty(cur) != "bool" or not ds:
+                    continue
+                vals = []
+                for db, i, d in ds:
+                    c = op_const(d["rv"]["op"]) if i != "term" and d["rv"]["k"] == "use" else None
+                    vals.append((db, (c or {}).get("int") if c is not None else None, c))
+                if any(c is None for _, _, c in vals):
+                    continue
+                trues = [db for db, v, c in vals if v == 1 or (c or {}).get("bool") is True or "true" in str((c or {}).get("dbg"))]
+                if not trues or not all(b.dominates(normal_t, db) for db in trues):
+                    continue
+                zero = next((tg for v, tg in sw["targets"] if v == 0), None)
+                out.append(sw["otherwise"] if pos else zero)
+            return [x for x in out if x is not None]
+
+        for blk, t in pops:
+            n += 1
+            guarded = False
+            for sblk, normal_t, src in tests:
+                if any(fn_matches(o["t"], r"::last(_mut)?$") for o in src) and (b.dominates(normal_t, blk) or any(b.dominates(e, blk) for e in flag_edges(normal_t))):
+                    guarded = True
+                if any(o["t"] is t for o in src) and t.get("target") is not None and b.all_paths_pass(t["target"], {normal_t} | errs, b.returns()):
+                    guarded = True
+            f, l = M.user_span(t["span"])
+            r.inst(fn=b.path, where="%s:%s" % (f, l), removal=t["fn"]["path"].split("::")[-1], only_directory_names=guarded)
+            if not guarded:
+                r.fail(prop, "parent-dir-pops-root export::path::absolute",
+                       "`..` pops whatever component is last, the root included: with an output directory two levels deep, `#[ts(export_to = \"../../../x.ts\")]` normalises to the relative path `x.ts`; export_all_to returns Ok and the file is written under the working directory",
+                       f, l)
     if n == 0:
-        r.fail(prop, "anchor-missing parent-dir handling", "no component is removed for `..` in absolute()", fn["file"], fn["line"])
+        ab = crate.body("export::path::absolute")
+        r.fail(prop, "anchor-missing parent-dir handling", "no component is removed for `..` in absolute()", ab.file(), ab.line())
     r.floor = 1
     return r
 
@@ -865,7 +962,7 @@ def normaliser_purity_rule(crate, prop, rule="C06.R7"):
     """path::absolute() gives the registry key of a file.  Two spellings of one location must give one key, in every state
     of the file system: the function is `cwd.join(path)` cleaned lexically, nothing else."""
     r = Result(rule, "path::absolute is a function of the working directory and the path text alone: (a) it does not consult the file system (canonicalize/exists/metadata/read_link: the answer changes once the file has been written), (b) every Ok value is collected from the cleaned component stack (or is `.`), never the input itself or something the OS resolved")
-    b = crate.body("export::path::absolute")
+    b = crate.ibody("export::path::absolute")
     if b is None:
         r.fail(prop, "anchor-missing path::absolute", "not found")
         return r
@@ -892,8 +989,9 @@ def normaliser_purity_rule(crate, prop, rule="C06.R7"):
         for o in srcs:
             if o["kind"] == "call" and fn_matches(o["t"], r"Iterator::collect$", r"FromIterator"):
                 # collected from the stack?
-                it = origins(b, op_local(o["t"]["args"][0]), identity=M.IDENTITY_CALLS + [r"slice::<impl \[T\]>::iter$", r"IntoIterator>::into_iter$", r"Iterator::(map|cloned|copied)$", r"Deref::deref$"])
-                from_stack = any(x["kind"] == "call" and x["t"]["dst"]["l"] in stack_locals for x in it) or any(x["kind"] == "local" and x.get("l") in stack_locals for x in it)
+                vis_l = set()
+                it = origins(b, op_local(o["t"]["args"][0]), identity=M.IDENTITY_CALLS + [r"slice::<impl \[T\]>::iter$", r"IntoIterator>::into_iter$", r"Iterator::(map|cloned|copied)$", r"Deref::deref$"], visited=vis_l)
+                from_stack = any(x["kind"] == "call" and x["t"]["dst"]["l"] in stack_locals for x in it) or bool(vis_l & stack_locals)
                 kinds.append("collect(stack)" if from_stack else "collect(?)")
                 good = good and from_stack
             elif o["kind"] == "call" and fn_matches(o["t"], r"convert::From::from$", r"PathBuf::from$") and (op_const(o["t"]["args"][0]) or {}).get("str") == ".":
@@ -977,7 +1075,8 @@ def type_arg_discipline_rule(crate, prop, rule="C11.R8"):
     """the exporter is generic code about *one* type: whoever is asked about `T` asks its helpers about `T`"""
     r = Result(rule, "inside the TS default methods, the exporter's generic functions, the dependency visitors and Dependency::from_ty, every call to another generic function of the crate, to a TS method or to TypeId::of passes the caller's own type parameter unchanged; the one projection is export_to_string's `generate_imports::<T::WithoutGenerics>` (imports are computed on the erased type, C03.R3)")
     EXC = {("export::export_to_string", "export::generate_imports"): "<T as TS>::WithoutGenerics"}
-    ALSO = {("export::recursive_export::export_recursive", "TS::visit_dependencies"): "<T as TS>::WithoutGenerics"}   # walked in addition to T (C03.R4)
+    _er = walker_roles(crate)[0]
+    ALSO = {((_er.path if _er is not None else "export::recursive_export::export_recursive"), "TS::visit_dependencies"): "<T as TS>::WithoutGenerics"}   # walked in addition to T (C03.R4)
     n = 0
     for b in crate.bodies:
         p0 = b.path
@@ -1052,7 +1151,7 @@ def entry_reaches_writer_rule(crate, prop, rule="C11.R10"):
     """an export request is carried out or fails: there is no third outcome"""
     r = Result(rule, "every non-error path through TS::export, export_into and export_to reaches the next stage (export_to / export_to / export_and_merge), and export_all_into reaches export_recursive: no condition can turn an export request into a silent `Ok(())`")
     STAGES = [("TS::export", r"export::export_to$"), ("export::export_into", r"export::export_to$"), ("export::export_to", r"export::export_and_merge$"),
-              ("export::recursive_export::export_all_into", r"export::recursive_export::export_recursive$"), ("TS::export_all", r"export_all_into$"), ("TS::export_all_to", r"export_all_into$")]
+              ("export::recursive_export::export_all_into", (re.escape(walker_roles(crate)[0].path) + "$") if walker_roles(crate)[0] is not None else r"export::recursive_export::export_recursive$"), ("TS::export_all", r"export_all_into$"), ("TS::export_all_to", r"export_all_into$")]
     for path, nxt in STAGES:
         b = crate.body(path)
         if b is None:
@@ -1121,7 +1220,8 @@ def visitor_predicates_rule(crate, prop, rule="C11.R12"):
     (TS::dependencies' collector: is there a Dependency for the type.)  Anything else - comparing paths, names, earlier
     entries - makes what is exported/imported depend on more than the dependency relation."""
     r = Result(rule, "the bodies of the two dependency visitors (`recursive_export::Visit::visit`, `TS::dependencies::Visit::visit`) consult nothing but the error flag, `T::output_path().is_none()` resp. `Dependency::from_ty::<T>()`: no comparison of paths or names, no look-up in what was collected before")
-    ALLOWED = [r"TS::output_path$", r"Option::<T>::(is_some|is_none)$", r"export_recursive$", r"Result::<T, E>::err$", r"Dependency::from_ty$", r"Vec::<T, A>::push$", r"Vec::<T>::push$",
+    _er = walker_roles(crate)[0]
+    ALLOWED = [r"TS::output_path$", r"Option::<T>::(is_some|is_none)$", (re.escape(_er.path) + "$") if _er is not None else r"export_recursive$", r"Result::<T, E>::err$", r"Dependency::from_ty$", r"Vec::<T, A>::push$", r"Vec::<T>::push$",
                r"Deref::deref$", r"DerefMut::deref_mut$", r"AsRef.*::as_ref$"]
     n = 0
     for b in crate.bodies:
